@@ -16,8 +16,8 @@ HARNESS_ERROR = 3
 
 
 def _ensure_env():
-    if os.path.realpath(sys.executable) == os.path.realpath(VENV_PY) or os.environ.get("VCHECK_IN_VENV"):
-        return
+    if os.path.realpath(sys.prefix) == os.path.realpath(os.path.join(HERE, ".venv")):
+        return   # already running inside the overlay venv (NB: its python is a symlink to /venv's, so compare prefixes)
     import subprocess
     r = subprocess.run(["/bin/sh", os.path.join(HERE, "setup.sh")], stdout=subprocess.DEVNULL)
     if r.returncode != 0:
